@@ -518,7 +518,7 @@ func (m *observerManager) Reset() {
 		return
 	}
 
-	for i := range m.maxEventType + 1 {
+	for i := 0; i <= int(m.maxEventType); i++ {
 		if !m.hasObservers[i] {
 			continue
 		}
